@@ -53,7 +53,7 @@ UNIT_TIMEOUT_S = 60
 def units(tier, seed):
     out = []
     sizes = (1, 2, 3) if tier == "quick" else (1, 2, 3, 4, 5)
-    reps = 1 if tier == "quick" else 12
+    reps = 1 if tier == "quick" else 5
     for rep in range(reps):
         for template in TEMPLATES:
             for n in sizes:
